@@ -145,6 +145,34 @@ class VStr(V):
         return f"{'Bytes' if self.b else 'Str'}({self.t})"
 
 
+class VOptKey(VStr):
+    """Key *template* of a set / dict whose keys are Optional[str]: such a key is stored as one
+    string - "N" for None, "S" + s for the string s (an injective encoding; see coerce).  Only a
+    template: key terms themselves are plain encoded strings, and enumerating such a container's
+    keys is not supported (rebuild refuses)."""
+
+    def __init__(self):
+        VStr.__init__(self, z3.StringVal(""), False)
+
+    @property
+    def kind(self):
+        return "opt[str]"
+
+    def rebuild(self, leaves):
+        raise Unsupported("enumerating the keys of a container with Optional keys")
+
+    @staticmethod
+    def encode(v):
+        if isinstance(v, VNone):
+            return VStr(z3.StringVal("N"))
+        if isinstance(v, VOpt) and isinstance(v.val, VStr) and not v.val.b:
+            return VStr(z3.If(v.isnone if not isinstance(v.isnone, bool) else z3.BoolVal(v.isnone),
+                              z3.StringVal("N"), z3.Concat(z3.StringVal("S"), v.val.t)))
+        if isinstance(v, VStr) and not v.b:
+            return VStr(z3.Concat(z3.StringVal("S"), v.t))
+        raise Unsupported(f"cannot use {v!r} as an Optional[str] key")
+
+
 class VOpaque(V):
     """Element of an uninterpreted sort (an abstract library / interface object)."""
 
@@ -453,6 +481,8 @@ def coerce(v: V, like: V) -> V:
     """Bring v to the leaf shape of `like` (None/T -> Optional[T], etc.)."""
     if isinstance(v, VBottom):
         return dummy_like(like) if not isinstance(like, VBottom) else v
+    if isinstance(like, VOptKey):
+        return VOptKey.encode(v)
     if isinstance(like, VOpt):
         if isinstance(v, VNone):
             return VOpt(True, dummy_like(like.val))
@@ -651,7 +681,9 @@ def fresh(kind: str, name: str, namer=None) -> V:
         return VTuple([fresh(p, f"{name}.{i}", namer) for i, p in enumerate(parts)])
     if kind.startswith("dict[") and kind.endswith("]"):
         k, v = _split_top(kind[5:-1])
-        key = fresh(k, name + ".key", namer)
+        key = VOptKey() if k.strip() == "opt[str]" else fresh(k, name + ".key", namer)
+        if isinstance(key, VOpt):
+            raise Unsupported(f"optional keys other than opt[str] are not supported: {kind}")
         ks = key.leaves()[0].sort()
         valt = fresh(v, name + ".val", namer)
         val = valt.rebuild(
@@ -659,7 +691,11 @@ def fresh(kind: str, name: str, namer=None) -> V:
         )
         return VMap(key, mk(name + ".dom", z3.ArraySort(ks, BOOL)), val)
     if kind.startswith("set[") and kind.endswith("]"):
+        if kind[4:-1].strip() == "opt[str]":
+            return VSet(VOptKey(), mk(name + ".dom", z3.ArraySort(STR, BOOL)))
         key = fresh(kind[4:-1], name + ".key", namer)
+        if isinstance(key, VOpt):
+            raise Unsupported(f"optional keys other than opt[str] are not supported: {kind}")
         ks = key.leaves()[0].sort()
         return VSet(key, mk(name + ".dom", z3.ArraySort(ks, BOOL)))
     if kind.startswith("list[") and kind.endswith("]"):
